@@ -20,8 +20,10 @@ VARIABLES cfg,      \* [kind, req, client, perreq, tracers, ctxmode]   never cha
           sleeps,   \* Seq of delays slept
           tlog,     \* tracer events: [t, what, ctx, attempt]
           script,   \* outcomes chosen by the environment so far
-          result    \* what the caller got: [k |-> "none"] | [k |-> "response", o] | [k |-> "raise", o]
-vars == <<cfg, phase, ti, last, used, sent, sleeps, tlog, script, result>>
+          result,   \* what the caller got: [k |-> "none"] | [k |-> "response", o] | [k |-> "raise", o]
+          past      \* scripts of the requests already completed on this client (cfg.rounds requests are made one after the other
+                    \* on the SAME client and strategy objects; every request starts from scratch)
+vars == <<cfg, phase, ti, last, used, sent, sleeps, tlog, script, result, past>>
 
 NoStrategy == [n |-> 0, codes |-> "na", excs |-> "na", bo |-> [fam |-> "na", a |-> 0, b |-> 0, max |-> -1, jit |-> <<>>]]
 
@@ -61,7 +63,7 @@ DelaysLeft == IF Retrying THEN Strategy.s.n - used ELSE 0
 
 (********************************* actions **********************************)
 InitWith(c) == /\ cfg = c /\ phase = "begin" /\ ti = 1 /\ last = "none" /\ used = 0 /\ sent = 0
-               /\ sleeps = <<>> /\ tlog = <<>> /\ script = <<>> /\ result = [k |-> "none", o |-> "none"]
+               /\ sleeps = <<>> /\ tlog = <<>> /\ script = <<>> /\ result = [k |-> "none", o |-> "none"] /\ past = <<>>
 Init == \E c \in Cfgs : InitWith(c)
 
 CtxOf == IF cfg.ctxmode = "caller" THEN 0 ELSE sent + 1        \* caller-supplied object, or one default object per attempt
@@ -69,37 +71,42 @@ CtxOf == IF cfg.ctxmode = "caller" THEN 0 ELSE sent + 1        \* caller-supplie
 Begin == /\ phase = "begin" /\ ti <= cfg.tracers
          /\ tlog' = Append(tlog, [t |-> ti, what |-> "begin", ctx |-> CtxOf, attempt |-> sent + 1])
          /\ ti' = ti + 1
-         /\ UNCHANGED <<cfg, phase, last, used, sent, sleeps, script, result>>
+         /\ UNCHANGED <<cfg, phase, last, used, sent, sleeps, script, result, past>>
 BeginDone == /\ phase = "begin" /\ ti > cfg.tracers /\ phase' = "send"
-             /\ UNCHANGED <<cfg, ti, last, used, sent, sleeps, tlog, script, result>>
+             /\ UNCHANGED <<cfg, ti, last, used, sent, sleeps, tlog, script, result, past>>
 \* the request document goes to the transport; the environment decides how the attempt ends
 Transport(o) == /\ phase = "send" /\ o \in Outcomes(cfg.req)
                 /\ sent' = sent + 1 /\ last' = o /\ script' = Append(script, o)
                 /\ phase' = "complete" /\ ti' = 1
-                /\ UNCHANGED <<cfg, used, sleeps, tlog, result>>
+                /\ UNCHANGED <<cfg, used, sleeps, tlog, result, past>>
 \* every tracer sees exactly one completion: end (the attempt returned) or error (it raised)
 Complete == /\ phase = "complete" /\ ti <= cfg.tracers
             /\ tlog' = Append(tlog, [t |-> ti, what |-> IF last \in ExcOutcomes THEN "error" ELSE "end",
                                      ctx |-> IF cfg.ctxmode = "caller" THEN 0 ELSE sent, attempt |-> sent])
             /\ ti' = ti + 1
-            /\ UNCHANGED <<cfg, phase, last, used, sent, sleeps, script, result>>
+            /\ UNCHANGED <<cfg, phase, last, used, sent, sleeps, script, result, past>>
 CompleteDone == /\ phase = "complete" /\ ti > cfg.tracers /\ phase' = "decide"
-                /\ UNCHANGED <<cfg, ti, last, used, sent, sleeps, tlog, script, result>>
+                /\ UNCHANGED <<cfg, ti, last, used, sent, sleeps, tlog, script, result, past>>
 \* the retry loop: listed outcome and a delay left -> sleep; otherwise the caller gets the last outcome unchanged
 Decide == /\ phase = "decide"
           /\ IF Retryable(last) /\ DelaysLeft > 0
              THEN phase' = "sleep" /\ result' = result
              ELSE phase' = "done" /\ result' = [k |-> IF last \in ExcOutcomes THEN "raise" ELSE "response", o |-> last]
-          /\ UNCHANGED <<cfg, ti, last, used, sent, sleeps, tlog, script>>
+          /\ UNCHANGED <<cfg, ti, last, used, sent, sleeps, tlog, script, past>>
 Sleep == /\ phase = "sleep"
          /\ sleeps' = Append(sleeps, Delay(Strategy.s.bo, used + 1)) /\ used' = used + 1
          /\ phase' = "begin" /\ ti' = 1
-         /\ UNCHANGED <<cfg, last, sent, tlog, script, result>>
-Next == Begin \/ BeginDone \/ (\E o \in RespOutcomes \cup ExcOutcomes : Transport(o)) \/ Complete \/ CompleteDone \/ Decide \/ Sleep
+         /\ UNCHANGED <<cfg, last, sent, tlog, script, result, past>>
+\* the caller makes the next request on the same client: nothing of the previous request is left over
+Again == /\ phase = "done" /\ Len(past) + 1 < cfg.rounds
+         /\ past' = Append(past, script)
+         /\ phase' = "begin" /\ ti' = 1 /\ last' = "none" /\ used' = 0 /\ sent' = 0 /\ sleeps' = <<>> /\ tlog' = <<>>
+         /\ script' = <<>> /\ result' = [k |-> "none", o |-> "none"] /\ UNCHANGED cfg
+Next == Again \/ Begin \/ BeginDone \/ (\E o \in RespOutcomes \cup ExcOutcomes : Transport(o)) \/ Complete \/ CompleteDone \/ Decide \/ Sleep
 Spec == Init /\ [][Next]_vars
 FairSpec == Spec /\ WF_vars(Next)
 \* whatever the transport does, the caller eventually gets an outcome (the retry loop is bounded)
-Termination == <>(phase = "done")
+Termination == <>(phase = "done" /\ Len(past) + 1 = cfg.rounds)
 
 (******************************** properties ********************************)
 Done == phase = "done"
